@@ -40,6 +40,19 @@ func runC04(e *Env) {
 			e.S.Obs[i].Rule = "C04.vocab"
 		}
 	}
+	// the reading side is exact: newSize's product is overflow-checked and its decision table is the documented one
+	// (C08's rules under this property's name) — a size near 2^64 must parse back to itself, not be refused or wrapped
+	n1 := len(e.S.Obs)
+	if ns := e.Fn("C04.exact", "size", "newSize"); ns != nil {
+		e.FlowAs(map[string]string{"C08.ovf": "C04.exact"}, func(c *flow.Ctx) { c.RuleMulOverflow(ns) })
+	}
+	ruleC08NewSize(e)
+	for i := n1; i < len(e.S.Obs); i++ {
+		if strings.HasPrefix(e.S.Obs[i].Rule, "C08.") {
+			e.S.Obs[i].Rule = "C04.exact"
+		}
+	}
+	e.S.Floor("C04.exact", 8)
 	ruleC04Keys(e)
 	ruleC04Sep(e)
 	ruleLimitAccept(e, "C04.limit", "size")
